@@ -119,6 +119,11 @@ func (an *Analysis) addrClassStatic(v ssa.Value) (cls string, local string) {
 		}
 		return "f:" + objKey(f), ""
 	case *ssa.IndexAddr:
+		// an element of an array this call allocated itself (the compiler's variadic argument arrays, a local
+		// buffer): fresh storage, whoever it is handed to afterwards - not a write to anything that existed before
+		if a, ok := x.X.(*ssa.Alloc); ok {
+			return "", siteKey(a)
+		}
 		if p, ok := x.Type().Underlying().(*types.Pointer); ok {
 			return elemClass(p.Elem()), ""
 		}
